@@ -408,6 +408,7 @@ func (h *vfE2H) answered(cn *vfE2Conn, ch *vfE2Chan, seq int, ok bool, what stri
 			cn.nFin++
 		} else {
 			cn.nReq++
+			ch.nReq++
 		}
 	}
 }
@@ -600,6 +601,7 @@ func (h *vfE2H) doScan(inflight bool, t, c int, spec string) {
 					h.fail("early-timeout", "message %d timed out at t=%d before its deadline %d", e.seq, tm, e.pri)
 				}
 				delete(ch.holder, e.seq)
+				ch.nTimeout++
 				if cn := h.conns[e.conn]; cn != nil {
 					cn.out--
 				}
